@@ -84,6 +84,20 @@ func c02Repeat(useShipped bool) func(t *rapid.T) {
 			if db2, err = database.LoadDatabase(path); err != nil {
 				t.Fatalf("load: %v", err)
 			}
+			if rapid.IntRange(0, 3).Draw(t, "in-memory") == 0 {
+				// databases assembled in memory (no lower-case caches), as UpdateDatabase /
+				// LoadDatabaseWithMonitoring callers and the built-in fallback hand them over
+				cls = "in-memory:" + cls
+				if rapid.Bool().Draw(t, "via-update") {
+					c1 := database.NewCachedDatabase(&database.Database{})
+					c1.UpdateDatabase(cloneCmds(cmds))
+					c2 := database.NewCachedDatabase(&database.Database{})
+					c2.UpdateDatabase(cloneCmds(cmds))
+					db, db2 = c1.Database, c2.Database
+				} else {
+					db, db2 = &database.Database{Commands: cloneCmds(cmds)}, &database.Database{Commands: cloneCmds(cmds)}
+				}
+			}
 		}
 		var q string
 		var qcls gen.QueryClass
